@@ -7,6 +7,10 @@
  *   inif <sep> <mainpath> [<path>=<content> ...]   qconfig_parse_file on a virtual file system (hex)
  *        -> ok <n> <name>=<value> ... | null
  *   ac <flags> <defcb> <doc> [<opt> ...]       opt = <name>:<take>:<cb>:<sectionid>:<sections> (numbers hex)
+ *   acp <pathlen> <flags> <defcb> <doc> [<opt> ...]   the same, the file is opened under a path of exactly
+ *        <pathlen> (decimal) bytes (`/.` components inserted): the error message starts with the path
+ *   fread <nbytes> <content>                   qfile_read(fp, &nbytes) on a stream holding <content> (hex);
+ *        nbytes decimal, `-` = NULL pointer -> ok <n> <data> | null
  *        -> add <k> ret <n> <line|-> <msg|-> cbs <m> <cb> ...
  *           cb = <M|D>/<otype>/<section>/<sections>/<level>/<argc>/<parent argv[0]s>/<argv>
  *
@@ -29,6 +33,14 @@ FILE *__wrap_popen(const char *cmd, const char *mode) {
     (void) mode;
     if (cmd[0] == 'N') return NULL;                 /* "command cannot be started" */
     size_t n = strlen(cmd);
+    if (cmd[0] == 'R' && cmd[1] != '\0' && strspn(cmd + 1, "0123456789") == n - 1 && n <= 9) {
+        /* `R<n>`: the command prints exactly n bytes, byte i = 'a' + i % 23 (no terminator in the buffer) */
+        size_t k = (size_t) strtoul(cmd + 1, NULL, 10);
+        if (k == 0) return tmpfile();
+        popen_buf = malloc(k);
+        for (size_t i = 0; i < k; i++) popen_buf[i] = (char) ('a' + i % 23);
+        return fmemopen(popen_buf, k, "r");
+    }
     popen_buf = malloc(n + 6);
     if (cmd[0] == 'E') popen_buf[0] = '\0';          /* command prints nothing */
     else sprintf(popen_buf, " [%s] \n", cmd);
@@ -63,11 +75,13 @@ int __wrap_open(const char *path, int flags, ...) {
 }
 
 /* ---------------------------------------------------------------- watchdog */
+static char tmp_path[4096];
 static void on_alarm(int sig) {
     (void) sig;
     fflush(stdout);
     static const char m[] = "timeout\n";
     if (write(1, m, sizeof(m) - 1) < 0) _exit(4);
+    unlink(tmp_path);
     _exit(3);
 }
 
@@ -125,7 +139,6 @@ static QAC_CB(cb_def_refusing) {
 }
 
 /* ---------------------------------------------------------------- helpers */
-static char tmp_path[4096];
 
 static unsigned long long hexnum(const char *s) { return strtoull(s, NULL, 16); }
 
@@ -201,7 +214,23 @@ static void do_inif(int nw, char **w) {
     free(main_path); free(sep.p); free(mp.p);
 }
 
-static void do_ac(int nw, char **w) {
+/* a path of exactly `want` bytes that names tmp_path (`/.` components, one `//` for an odd rest);
+ * tmp_path itself when that is already longer */
+static char padded_path[4200];
+static const char *path_of_length(size_t want) {
+    size_t nat = strlen(tmp_path);
+    if (want < nat + 1 || want >= 4096) return tmp_path;
+    char *slash = strrchr(tmp_path, '/');
+    size_t dl = (size_t) (slash - tmp_path), extra = want - nat, k = 0;
+    memcpy(padded_path, tmp_path, dl); k = dl;
+    for (size_t i = 0; i < extra / 2; i++) { padded_path[k++] = '/'; padded_path[k++] = '.'; }
+    if (extra % 2) padded_path[k++] = '/';
+    strcpy(padded_path + k, slash);
+    return padded_path;
+}
+
+static void do_ac(int nw, char **w, size_t pathlen) {
+    const char *use_path = pathlen ? path_of_length(pathlen) : tmp_path;
     unsigned flags = (unsigned) hexnum(w[1]);
     int defcb = atoi(w[2]);
     bytes_t doc;
@@ -231,15 +260,15 @@ static void do_ac(int nw, char **w) {
     if (defcb) conf->setdefhandler(conf, defcb == 2 ? cb_def_refusing : cb_def);
     alarm(WATCHDOG_S);
     errno = ENOMEM;   /* poison, see do_ini */
-    int ret = conf->parse(conf, tmp_path, (uint8_t) flags);
+    int ret = conf->parse(conf, use_path, (uint8_t) flags);
     alarm(0);
     fclose(cbout);
     printf("add %d ret %d ", added, ret);
     const char *em = conf->errmsg(conf);
     if (em == NULL) printf("- -");
     else {
-        size_t pl = strlen(tmp_path);
-        if (strncmp(em, tmp_path, pl) == 0 && em[pl] == ':') {
+        size_t pl = strlen(use_path);
+        if (strncmp(em, use_path, pl) == 0 && em[pl] == ':') {
             char *end = NULL;
             long ln = strtol(em + pl + 1, &end, 10);
             if (*end == ' ') end++;
@@ -255,16 +284,42 @@ static void do_ac(int nw, char **w) {
     free(opts); free(doc.p);
 }
 
+/* fread <nbytes|-> <content>: qfile_read on a stream that holds exactly <content> */
+static void do_fread(char **w) {
+    bytes_t c;
+    if (!unhex(w[2], &c)) { printf("bad-op"); return; }
+    size_t nb = 0, *nbp = NULL;
+    if (strcmp(w[1], "-") != 0) { nb = (size_t) strtoul(w[1], NULL, 10); nbp = &nb; }
+    FILE *fp = c.n ? fmemopen(c.p, c.n, "r") : tmpfile();
+    if (!fp) { printf("bad-tmp"); free(c.p); return; }
+    alarm(WATCHDOG_S);
+    char *d = qfile_read(fp, nbp);
+    alarm(0);
+    fclose(fp);
+    if (d == NULL) printf("null");
+    else {
+        size_t n = nbp ? nb : strlen(d);
+        printf("ok %zu ", n); puthex(stdout, d, n);
+        printf(" %02x", (unsigned char) d[n]);
+        free(d);
+    }
+    free(c.p);
+}
+
 int main(int argc, char **argv) {
     (void) argc;
     char *line = NULL; size_t cap = 0; ssize_t len;
     harness_init();
     signal(SIGALRM, on_alarm);
-    {   /* temp file next to the harness binary (the build directory) */
+    {   /* temp file in /dev/shm, else next to the harness binary (the build directory) */
         char exe[4000]; ssize_t n = readlink("/proc/self/exe", exe, sizeof(exe) - 1);
         if (n <= 0) { strncpy(exe, argv[0], sizeof(exe) - 1); n = (ssize_t) strlen(exe); }
         exe[n] = '\0';
-        snprintf(tmp_path, sizeof(tmp_path), "%s/conf-%d.tmp", dirname(exe), (int) getpid());
+        /* tens of thousands of documents are written and parsed per run: memory file system when there is one */
+        if (access("/dev/shm", W_OK | X_OK) == 0)
+            snprintf(tmp_path, sizeof(tmp_path), "/dev/shm/verif-conf-%d.tmp", (int) getpid());
+        else
+            snprintf(tmp_path, sizeof(tmp_path), "%s/conf-%d.tmp", dirname(exe), (int) getpid());
     }
     char **w = malloc(sizeof(char *) * 4096);
     while ((len = getline(&line, &cap, stdin)) > 0) {
@@ -273,7 +328,9 @@ int main(int argc, char **argv) {
         if (nw == 0) continue;
         if (!strcmp(w[0], "ini") && nw >= 3) do_ini(nw, w);
         else if (!strcmp(w[0], "inif") && nw >= 3) do_inif(nw, w);
-        else if (!strcmp(w[0], "ac") && nw >= 4) do_ac(nw, w);
+        else if (!strcmp(w[0], "ac") && nw >= 4) do_ac(nw, w, 0);
+        else if (!strcmp(w[0], "acp") && nw >= 5) do_ac(nw - 1, w + 1, (size_t) strtoul(w[1], NULL, 10));
+        else if (!strcmp(w[0], "fread") && nw == 3) do_fread(w);
         else printf("bad-op");
         printf("\n");
     }
